@@ -1458,9 +1458,22 @@ class PlacementFeasibilityTracker:
     def __init__(self):
         self.recorder = dict()
 
+    @staticmethod
+    def _shape(app):
+        """App shape, extended with everything else that affects placement:
+        app traits (own and allocation) and affinity limits per level.
+        """
+        constraints, demand = app.shape()
+        limits = tuple(sorted(
+            (str(level), limit)
+            for level, limit in six.iteritems(app.affinity.limits)
+            if limit != float('inf')
+        ))
+        return constraints + (app.traits, limits), demand
+
     def feasible(self, app):
         """Checks if it is feasible to satisfy demand."""
-        constraints, demand = app.shape()
+        constraints, demand = self._shape(app)
         if constraints in self.recorder:
             # If demand is >= than recorded failure, placement is not feasible.
             if _all_ge(demand, self.recorder[constraints]):
@@ -1470,7 +1483,7 @@ class PlacementFeasibilityTracker:
 
     def adjust(self, app):
         """Adjust info about failed placement."""
-        constraints, demand = app.shape()
+        constraints, demand = self._shape(app)
         if constraints not in self.recorder:
             self.recorder[constraints] = demand
         else:
